@@ -16,7 +16,11 @@ func fnWatch(ctx *cmdContext, args map[string]any) (output respValue, err error)
 	ids := ctx.dsc.getIds(keyStrs...)
 	ctx.cs.mu.Lock()
 	for idx, id := range ids {
-		ctx.cs.watches[watchKey{ds: ctx.dsc.ds, key: keyStrs[idx]}] = id
+		// a key that is watched already stays watched from the first time on
+		wk := watchKey{ds: ctx.dsc.ds, key: keyStrs[idx]}
+		if _, watched := ctx.cs.watches[wk]; !watched {
+			ctx.cs.watches[wk] = id
+		}
 	}
 	ctx.cs.mu.Unlock()
 
